@@ -7,7 +7,7 @@ Inductive case :=
    verdict of the harness's own Go implementation of the strict check *)
 | CHist (ops : list oprec) (strict_go : bool)
 (* a concurrent history recorded while CompactIndex was running in the background: the machine
-   with its compaction step (index re-opened from an older copy, wait hub unchanged) admits
+   with its compaction step (index re-opened from an older copy, wait hub unchanged) allows
    non-linearizable histories there (third known finding), so only the verdict of the verified
    checker is tied to the harness's own *)
 | CHistCompact (ops : list oprec) (strict_go : bool)
